@@ -15,11 +15,14 @@ import Driver.Metropolis
 import Driver.ManagerSM
 import Driver.ItpX
 import Driver.Comparative
+import Driver.HeapY
+import Driver.SysGroX
+import Driver.GroOpen
 /-
   gmdriver — reads request lines on stdin, writes one response line per request on stdout.
 -/
 
-def handlers : List Handler := [DGeom.handle, DEMap.handle, DMove.handle, DChi2.handle, DPbc.handle, DRestr.handle, DManager.handle, DSysGro.handle, DItp.handle, DHeap.handle, DGro.handle, DManagerGro.handle, DMC.handle, DManagerSM.handle, DItpX.handle, DCmp.handle]
+def handlers : List Handler := [DGeom.handle, DEMap.handle, DMove.handle, DChi2.handle, DPbc.handle, DRestr.handle, DManager.handle, DSysGro.handle, DItp.handle, DHeap.handle, DGro.handle, DManagerGro.handle, DMC.handle, DManagerSM.handle, DItpX.handle, DCmp.handle, DHeapY.handle, DSysGroX.handle, DGroOpen.handle]
 
 def dispatch (op : String) : Option (Rd String) :=
   handlers.findSome? (fun h => h op)
